@@ -1,10 +1,243 @@
 import Nv.Model.C07
-/-! C07 — property theorems (placeholder while the pipeline is wired). -/
+import Nv.Proofs.C07Codec
+import Nv.Proofs.C07Round
+set_option linter.unusedSimpArgs false
+/-!
+C07 — property theorems for the snowflake id codec (model `Nv/Model/C07.lean`).
+Ids are signed 64-bit integers; "non-negative id" is `0 ≤ id.toInt`; every non-negative id has a timestamp
+field that fits the configured width. All six layouts (`LayoutOk nb`, node-at-lowest on/off).
+-/
 namespace Nv.C07
+open Nv.C06
 
-/-- today's accessor: an id stamped 2293 (Node256 layout, inside the 43-bit width) does not survive the date form -/
+/-! ### split / join -/
+
+/-- splitting an id into (timestamp, node, step) and recombining the fields as `Generate` packs them gives the id -/
+theorem id_split_join {nb : BitVec 8} (hl : LayoutOk nb) (nal : Bool) (id : BitVec 64) (h : 0 ≤ id.toInt) :
+    join nb nal (idFields id nb nal).1 (idFields id nb nal).2.1 (idFields id nb nal).2.2 = id :=
+  join_idFields hl nal (toNat_lt_of_toInt_nonneg h)
+
+/-- the fields of a non-negative id fit their widths -/
+theorem id_fields_fit {nb : BitVec 8} (hl : LayoutOk nb) (nal : Bool) (id : BitVec 64) (h : 0 ≤ id.toInt) :
+    (idFields id nb nal).1.toNat < 2 ^ tsWidth nb ∧ (idFields id nb nal).2.1.toNat < 2 ^ nb.toNat ∧
+      (idFields id nb nal).2.2.toNat < 4096 :=
+  idFields_ranges hl nal (toNat_lt_of_toInt_nonneg h)
+
+/-- conversely, fields that fit their widths are what `IDFields` reads back from the packed id -/
+theorem id_join_split {nb : BitVec 8} (hl : LayoutOk nb) (nal : Bool) (t n s : BitVec 64)
+    (ht : t.toNat < 2 ^ tsWidth nb) (hn : n.toNat < 2 ^ nb.toNat) (hs : s.toNat < 4096) :
+    idFields (join nb nal t n s) nb nal = (t, n, s) ∧ 0 ≤ (join nb nal t n s).toInt := by
+  refine ⟨idFields_join hl nal ht hn hs, ?_⟩
+  rw [toInt_eq_toNat_of_lt (join_lt hl nal ht hn hs)]; omega
+
+/-- `IDParse` is `IDFields` with the epoch added to the timestamp -/
+theorem id_parse_fields (id : BitVec 64) (nb : BitVec 8) (nal : Bool) (epoch : BitVec 64) :
+    (idParse id nb nal epoch).1 - epoch = (idFields id nb nal).1 ∧
+    (idParse id nb nal epoch).2 = (idFields id nb nal).2 := by
+  unfold idParse
+  exact ⟨BitVec.add_sub_cancel _ _, rfl⟩
+
+/-! ### order -/
+
+/-- ids order exactly as their (timestamp, remaining bits) pairs order -/
+theorem id_order_lex {nb : BitVec 8} (hl : LayoutOk nb) (nal : Bool) (a b : BitVec 64) (ha : 0 ≤ a.toInt) (hb : 0 ≤ b.toInt) :
+    a.toInt < b.toInt ↔
+      ((idFields a nb nal).1.toInt < (idFields b nb nal).1.toInt ∨
+        ((idFields a nb nal).1 = (idFields b nb nal).1 ∧ (rest a nb).toNat < (rest b nb).toNat)) := by
+  have ha' := toNat_lt_of_toInt_nonneg ha
+  have hb' := toNat_lt_of_toInt_nonneg hb
+  rw [toInt_eq_toNat_of_lt ha', toInt_eq_toNat_of_lt hb', ts_toInt hl nal ha', ts_toInt hl nal hb',
+    rest_toNat hl, rest_toNat hl]
+  have e : (idFields a nb nal).1 = (idFields b nb nal).1 ↔ a.toNat / 2 ^ tsShift nb = b.toNat / 2 ^ tsShift nb := by
+    rw [← BitVec.toNat_inj, ts_toNat hl nal ha', ts_toNat hl nal hb']
+  rw [e]
+  have := lt_iff_lex (tsShift nb) a.toNat b.toNat
+  constructor
+  · intro h
+    rcases this.1 (by omega) with h1 | h1
+    · left; omega
+    · right; exact h1
+  · intro h
+    have : a.toNat < b.toNat := this.2 (by
+      rcases h with h1 | h1
+      · left; omega
+      · right; exact h1)
+    omega
+
+/-- the comparison the oracle prints (`lexCmp`) is the comparison of the ids -/
+theorem lexCmp_spec {nb : BitVec 8} (hl : LayoutOk nb) (nal : Bool) (a b : BitVec 64) (ha : 0 ≤ a.toInt) (hb : 0 ≤ b.toInt) :
+    (lexCmp nb nal a b = -1 ↔ a.toInt < b.toInt) ∧ (lexCmp nb nal a b = 1 ↔ b.toInt < a.toInt) := by
+  have hab := id_order_lex hl nal a b ha hb
+  have hba := id_order_lex hl nal b a hb ha
+  unfold lexCmp
+  by_cases h1 : (idFields a nb nal).1.toInt < (idFields b nb nal).1.toInt
+  · have hlt := hab.2 (Or.inl h1)
+    rw [if_pos (BitVec.slt_iff_toInt_lt.2 h1)]
+    exact ⟨⟨fun _ => hlt, fun _ => rfl⟩, ⟨fun h => by omega, fun h => by omega⟩⟩
+  · rw [if_neg (fun h => h1 (BitVec.slt_iff_toInt_lt.1 h))]
+    by_cases h2 : (idFields b nb nal).1.toInt < (idFields a nb nal).1.toInt
+    · have hlt := hba.2 (Or.inl h2)
+      rw [if_pos (BitVec.slt_iff_toInt_lt.2 h2)]
+      exact ⟨⟨fun h => by omega, fun h => by omega⟩, ⟨fun _ => hlt, fun _ => rfl⟩⟩
+    · rw [if_neg (fun h => h2 (BitVec.slt_iff_toInt_lt.1 h))]
+      have heq : (idFields a nb nal).1 = (idFields b nb nal).1 := BitVec.toInt_inj.1 (by omega)
+      by_cases h3 : (rest a nb).toNat < (rest b nb).toNat
+      · have hlt := hab.2 (Or.inr ⟨heq, h3⟩)
+        rw [if_pos (BitVec.ult_iff_toNat_lt.2 h3)]
+        exact ⟨⟨fun _ => hlt, fun _ => rfl⟩, ⟨fun h => by omega, fun h => by omega⟩⟩
+      · rw [if_neg (fun h => h3 (BitVec.ult_iff_toNat_lt.1 h))]
+        by_cases h4 : (rest b nb).toNat < (rest a nb).toNat
+        · have hlt := hba.2 (Or.inr ⟨heq.symm, h4⟩)
+          rw [if_pos (BitVec.ult_iff_toNat_lt.2 h4)]
+          exact ⟨⟨fun h => by omega, fun h => by omega⟩, ⟨fun _ => hlt, fun _ => rfl⟩⟩
+        · rw [if_neg (fun h => h4 (BitVec.ult_iff_toNat_lt.1 h))]
+          have n1 : ¬ a.toInt < b.toInt := fun h => by
+            rcases hab.1 h with h' | h'
+            · exact h1 h'
+            · exact h3 h'.2
+          have n2 : ¬ b.toInt < a.toInt := fun h => by
+            rcases hba.1 h with h' | h'
+            · exact h2 h'
+            · exact h4 h'.2
+          exact ⟨⟨fun h => by omega, fun h => absurd h n1⟩, ⟨fun h => by omega, fun h => absurd h n2⟩⟩
+
+/-! ### id interval of a time interval -/
+
+/-- `TimeIDRange(t)` is `TimeBetweenID(t, t)` -/
+theorem time_id_range_eq (nb : BitVec 8) (epoch sec : BitVec 64) :
+    timeIDRange nb epoch sec = timeBetweenID nb epoch sec sec := rfl
+
+/-- the millisecond offset of a second from the epoch, computed without wrap-around -/
+theorem sec_offset_toInt (epoch sec : BitVec 64) (hs : -2 ^ 52 ≤ sec.toInt ∧ sec.toInt < 2 ^ 52)
+    (he : -2 ^ 62 ≤ epoch.toInt ∧ epoch.toInt < 2 ^ 62) :
+    ((sec * 1000#64) - epoch).toInt = sec.toInt * 1000 - epoch.toInt := by
+  have h1 : (sec * 1000#64).toInt = sec.toInt * 1000 := by
+    rw [BitVec.toInt_mul, show (1000#64).toInt = 1000 by decide]
+    apply Int.bmod_eq_of_le <;> omega
+  rw [BitVec.toInt_sub, h1]
+  apply Int.bmod_eq_of_le <;> omega
+
+/-- **the interval is exact**: with `bOff`/`eOff` the millisecond offsets of the second-truncated endpoints from the
+    epoch (non-negative, inside the timestamp width), a non-negative id lies in `[min, max]` iff its timestamp lies
+    in `[bOff, eOff]` -/
+theorem range_exact {nb : BitVec 8} (hl : LayoutOk nb) (nal : Bool) (epoch b e id : BitVec 64)
+    (hb : ((b * 1000#64) - epoch).toNat < 2 ^ tsWidth nb) (he : ((e * 1000#64) - epoch).toNat < 2 ^ tsWidth nb)
+    (hid : 0 ≤ id.toInt) :
+    ((timeBetweenID nb epoch b e).1.toInt ≤ id.toInt ∧ id.toInt ≤ (timeBetweenID nb epoch b e).2.toInt) ↔
+      (((b * 1000#64) - epoch).toInt ≤ (idFields id nb nal).1.toInt ∧
+        (idFields id nb nal).1.toInt ≤ ((e * 1000#64) - epoch).toInt) := by
+  have hid' := toNat_lt_of_toInt_nonneg hid
+  have hW : 2 ^ tsWidth nb * 2 ^ tsShift nb = 2 ^ 63 := by
+    rcases hl with rfl | rfl | rfl <;> decide
+  have hp : 0 < 2 ^ tsShift nb := Nat.pos_of_ne_zero (by simp)
+  have hWle : 2 ^ tsWidth nb ≤ 2 ^ 43 := by
+    rcases hl with rfl | rfl | rfl <;> decide
+  have hmin := shl_toNat hl hb
+  have hmax := shl_or_mask_toNat hl he
+  have hminlt : ((b * 1000#64 - epoch) <<< (nb + 12#8).toNat).toNat < 2 ^ 63 := by
+    rw [hmin, ← hW]; exact Nat.mul_lt_mul_of_pos_right hb hp
+  have hmaxlt : (((e * 1000#64 - epoch) <<< (nb + 12#8).toNat) ||| lowMask nb).toNat < 2 ^ 63 := by
+    rw [hmax, ← hW]
+    have : ((e * 1000#64 - epoch).toNat + 1) * 2 ^ tsShift nb ≤ 2 ^ tsWidth nb * 2 ^ tsShift nb :=
+      Nat.mul_le_mul_right _ he
+    rw [Nat.add_mul] at this; omega
+  unfold timeBetweenID
+  simp only
+  rw [toInt_eq_toNat_of_lt hminlt, toInt_eq_toNat_of_lt hmaxlt, toInt_eq_toNat_of_lt hid', ts_toInt hl nal hid',
+    toInt_eq_toNat_of_lt (x := b * 1000#64 - epoch) (by omega), toInt_eq_toNat_of_lt (x := e * 1000#64 - epoch) (by omega),
+    hmin, hmax]
+  have hdm := Nat.div_add_mod id.toNat (2 ^ tsShift nb)
+  have hr := Nat.mod_lt id.toNat hp
+  generalize id.toNat / 2 ^ tsShift nb = q at *
+  generalize id.toNat % 2 ^ tsShift nb = r at *
+  generalize (b * 1000#64 - epoch).toNat = bo at *
+  generalize (e * 1000#64 - epoch).toNat = eo at *
+  generalize 2 ^ tsShift nb = p at *
+  rw [Nat.mul_comm] at hdm
+  constructor
+  · rintro ⟨h1, h2⟩
+    constructor
+    · by_cases hq : bo ≤ q
+      · omega
+      · exfalso
+        have : (q + 1) * p ≤ bo * p := Nat.mul_le_mul_right p (by omega)
+        rw [Nat.add_mul] at this; omega
+    · by_cases hq : q ≤ eo
+      · omega
+      · exfalso
+        have : (eo + 1) * p ≤ q * p := Nat.mul_le_mul_right p (by omega)
+        rw [Nat.add_mul] at this; omega
+  · rintro ⟨h1, h2⟩
+    have a1 : bo * p ≤ q * p := Nat.mul_le_mul_right p (by omega)
+    have a2 : q * p ≤ eo * p := Nat.mul_le_mul_right p (by omega)
+    constructor <;> omega
+
+/-- the interval contains every id whose timestamp lies between the second-truncated endpoints -/
+theorem range_contains {nb : BitVec 8} (hl : LayoutOk nb) (nal : Bool) (epoch b e id : BitVec 64)
+    (hb : ((b * 1000#64) - epoch).toNat < 2 ^ tsWidth nb) (he : ((e * 1000#64) - epoch).toNat < 2 ^ tsWidth nb)
+    (hid : 0 ≤ id.toInt)
+    (h : ((b * 1000#64) - epoch).toInt ≤ (idFields id nb nal).1.toInt ∧ (idFields id nb nal).1.toInt ≤ ((e * 1000#64) - epoch).toInt) :
+    (timeBetweenID nb epoch b e).1.toInt ≤ id.toInt ∧ id.toInt ≤ (timeBetweenID nb epoch b e).2.toInt :=
+  (range_exact hl nal epoch b e id hb he hid).2 h
+
+/-- … and no id whose timestamp lies before the first endpoint's second or after the last endpoint's second -/
+theorem range_excludes {nb : BitVec 8} (hl : LayoutOk nb) (nal : Bool) (epoch b e id : BitVec 64)
+    (hb : ((b * 1000#64) - epoch).toNat < 2 ^ tsWidth nb) (he : ((e * 1000#64) - epoch).toNat < 2 ^ tsWidth nb)
+    (hid : 0 ≤ id.toInt)
+    (h : (idFields id nb nal).1.toInt < ((b * 1000#64) - epoch).toInt ∨ ((e * 1000#64) - epoch).toInt < (idFields id nb nal).1.toInt) :
+    id.toInt < (timeBetweenID nb epoch b e).1.toInt ∨ (timeBetweenID nb epoch b e).2.toInt < id.toInt := by
+  have := range_exact hl nal epoch b e id hb he hid
+  by_cases h1 : (timeBetweenID nb epoch b e).1.toInt ≤ id.toInt
+  · by_cases h2 : id.toInt ≤ (timeBetweenID nb epoch b e).2.toInt
+    · have := this.1 ⟨h1, h2⟩; omega
+    · right; omega
+  · left; omega
+
+/-! ### the 24-character date form -/
+
+/-- **round trip through the date form**: for the millisecond accessor, over any calendar that is lawful on a domain
+    `D` of instants (`ofCivil ∘ toCivil = id`, year ≤ 9999, two/three-digit fields), every non-negative id whose
+    instant lies in `D` has a 24-character date form that converts back to the identical id.
+    (Seven digits suffice for the low part because it is < 2^22 < 10^7 — proved, `rest_toInt`.) -/
+theorem cn_roundtrip {c : Cfg} (hc : Proved c) (cal : Calendar) (D : Int → Prop) (law : cal.Lawful D)
+    {nb : BitVec 8} (hl : LayoutOk nb) (epoch id : BitVec 64) (hid : 0 ≤ id.toInt) (hD : D (cnMs nb epoch id).toInt) :
+    fromChStyle c cal nb epoch (cnStyle cal nb epoch id) = some id :=
+  (cn_roundtrip_aux hc cal D law hl epoch id hid hD).2
+
+theorem cn_length {c : Cfg} (hc : Proved c) (cal : Calendar) (D : Int → Prop) (law : cal.Lawful D)
+    {nb : BitVec 8} (hl : LayoutOk nb) (epoch id : BitVec 64) (hid : 0 ≤ id.toInt) (hD : D (cnMs nb epoch id).toInt) :
+    (cnStyle cal nb epoch id).length = 24 :=
+  (cn_roundtrip_aux hc cal D law hl epoch id hid hD).1
+
+/- Stretch goal not reached: `shanghai.Lawful (fun t => 946684800000 ≤ t ∧ t ≤ 253402271999999)` (the
+   days↔civil round trip needs the 400-year-cycle case analysis; `omega` alone does not find it). The laws stay a
+   hypothesis of `cn_roundtrip`; the instance is validated against Go's `time` by the correspondence (`rt`, `parsex`,
+   `from`) and at the instants below by evaluation. -/
+
+/-! ### non-vacuity -/
+
+example : LayoutOk 8#8 ∧ 0 ≤ (9008925330102025984#64).toInt ∧
+    idFields 9008925330102025984#64 8#8 false = (8591580705739#64, 255#64, 3840#64) := by decide
+/-- an interval of ten seconds in 2023 under the default epoch, Node1024 -/
+example : ((1700000000#64 * 1000#64) - 1609430400000#64).toNat < 2 ^ tsWidth 10#8 ∧
+    timeBetweenID 10#8 1609430400000#64 1700000000#64 1700000010#64 = (379876435558400000#64, 379876477505634303#64) := by decide
+
+/-- the instance `shanghai` satisfies the round-trip law at the edges the property names: 2000-01-01 (first epoch),
+    a leap day, the last millisecond of 2262-04-11 UTC, 2299-12-31, 9999-12-31 -/
+example : ∀ t ∈ [946684800000, 1709164800123, 9223372036854, 10413791999999, 253402271999999],
+    (let c := shanghai.toCivil t; shanghai.ofCivil c.year c.month c.day c.hour c.minute c.second c.milli) = t := by decide
+example : shanghai.toCivil 1709164800123 = ⟨2024, 2, 29, 8, 0, 0, 123⟩ := by decide
+
+/-! ### the accessor found on today's tree: negation by witness (F05) -/
+
+/-- `UnixNano()/MsDivNs` in `FromChStyle`: an id stamped 2293 (Node256 layout, inside the 43-bit width) does not
+    survive the date form -/
 theorem witness_unixNano_roundtrip :
     fromChStyle ⟨.unixNano⟩ shanghai 8#8 1609430400000#64 (cnStyle shanghai 8#8 1609430400000#64 9008925330102025984#64)
       = some 8112856289978089216#64 := by decide
+
+/-- with the millisecond accessor the same id comes back -/
+example : fromChStyle ⟨.unixMilli⟩ shanghai 8#8 1609430400000#64 (cnStyle shanghai 8#8 1609430400000#64 9008925330102025984#64)
+      = some 9008925330102025984#64 := by decide
 
 end Nv.C07
